@@ -4,6 +4,7 @@
 package codeclab
 
 import (
+	"errors"
 	"bytes"
 	"fmt"
 	"sort"
@@ -206,6 +207,7 @@ type recSender struct {
 	mu     sync.Mutex
 	frames [][]byte
 	hook   func()
+	calls, failEvery int
 }
 
 func (s *recSender) GossipUnicast(dst mesh.PeerName, msg []byte) error {
@@ -214,7 +216,14 @@ func (s *recSender) GossipUnicast(dst mesh.PeerName, msg []byte) error {
 	}
 	s.mu.Lock()
 	s.frames = append(s.frames, append([]byte(nil), msg...))
+	s.calls++
+	fail := s.failEvery > 0 && s.calls%s.failEvery == 0
 	s.mu.Unlock()
+	if fail {
+		// the transport took the frame (it is recorded) but reports an error, as mesh does when the route has just gone:
+		// what was handed over stays handed over, and everything else must still be handed over exactly once
+		return errors.New("unable to find connection to relay peer")
+	}
 	return nil
 }
 func (s *recSender) GossipBroadcast(update mesh.GossipData)       {}
@@ -224,7 +233,7 @@ func TestC19Conc(t *testing.T) {
 	rec := vk.New("C19", "conc")
 	defer rec.Finish(t)
 	rec.Rule("case = (ids) 16 goroutines creating ids for a few ssids concurrently: uniqueness by set, order by an atomic ticket drawn before/after each call (created-after => sorts before, same ssid); " +
-		"(peer) a real cluster.Peer over a recording sender with its ticker cancelled, 2-16 sender goroutines and exactly one flusher goroutine calling the queue processor at seeded instants; after joining and one final flush the recorder must hold, per sender goroutine, exactly its messages in order, once each; (encode) 8-24 goroutines round-tripping their own 100-400-message frames through the shared encoder pool at the same time; " +
+		"(peer) a real cluster.Peer over a recording sender with its ticker cancelled, 2-16 sender goroutines and exactly one flusher goroutine calling the queue processor at seeded instants; the transport reports an error for every n-th hand-over in a third of the cases, and in a sixth the payloads are a megabyte each so that one flush is split at the 10 MB bound; after joining and one final flush the recorder must hold, per sender goroutine, exactly its messages in order, once each; (encode) 8-24 goroutines round-tripping their own 100-400-message frames through the shared encoder pool at the same time; " +
 		"non-trivial = every case; distinct = hash of (kind, parameters, frames seen)")
 	n := vk.N(20, 1200)
 	for ci := 0; ci < n; ci++ {
@@ -329,9 +338,21 @@ func c19Peer(rec *vk.Rec, ci int, r *vk.Rand) {
 			time.Sleep(time.Duration(r.Intn(200)) * time.Microsecond)
 		}
 	}
+	if ci%3 == 1 {
+		snd.failEvery = r.Range(1, 4) // every n-th hand-over reports an error
+	}
 	p := cluster.VerifNewPeer(snd, mesh.PeerName(42))
 	G := r.Range(2, 16)
 	per := vk.N(300, 3000)
+	// every sixth case: a few senders with megabyte payloads, so that one flush exceeds the 10 MB bound of a frame and is
+	// split into several hand-overs (with the erroring transport of the neighbouring cases in half of them)
+	bigBody := 0
+	if ci%6 == 4 {
+		G, per, bigBody = r.Range(2, 4), 14, 1<<20
+		if r.Bool() {
+			snd.failEvery = r.Range(1, 3)
+		}
+	}
 	var wg sync.WaitGroup
 	stop := make(chan struct{})
 	flushed := make(chan struct{})
@@ -344,6 +365,7 @@ func c19Peer(rec *vk.Rec, ci int, r *vk.Rand) {
 				return
 			default:
 			}
+			p.VerifTouch() // the statement is about an ACTIVE peer: keep the 30 s activity window open however long the run takes
 			p.VerifFlush()
 			if fr.Chance(30) {
 				time.Sleep(time.Duration(fr.Intn(300)) * time.Microsecond)
@@ -356,7 +378,12 @@ func c19Peer(rec *vk.Rec, ci int, r *vk.Rand) {
 		go func(g int, gr *vk.Rand) {
 			defer wg.Done()
 			for i := 0; i < per; i++ {
-				m := &message.Message{ID: message.ID(fmt.Sprintf("g%02d", g)), Channel: []byte("c/"), Payload: []byte(fmt.Sprintf("%d|%d|%s", g, i, string(bytes.Repeat([]byte{'x'}, gr.Intn(30)))))}
+				fill := gr.Intn(30)
+				if bigBody > 0 {
+					fill = bigBody
+				}
+				m := &message.Message{ID: message.ID(fmt.Sprintf("g%02d", g)), Channel: []byte("c/"), Payload: []byte(fmt.Sprintf("%d|%d|%s", g, i, string(bytes.Repeat([]byte{'x'}, fill))))}
+				p.VerifTouch()
 				p.Send(m)
 				if gr.Chance(3) {
 					time.Sleep(time.Duration(gr.Intn(100)) * time.Microsecond)
